@@ -14,7 +14,7 @@ RULE = ('virtual clock; every real main_loop iteration is watched by: retransmis
         'retries (IKE_SA_INIT, CREATE_CHILD_SA, IKE rekey); (3) a partition injected after EVERY micro-step of scripted histories of every '
         'exchange kind, then both sides must have emptied their SAD by T + dpd + 20 s + 3 ticks; (4) idle pairs run to 2x lifetime with dpd in '
         '{5, 60} and lifetime in {20, 100}: rekey starts within [lifetime, lifetime+5 s+slack]; (5) a peer that answers every rekey with TEMPORARY_FAILURE '
-        '(responses built by the harness with the real keys): DELETE(IKE) within 2 ticks of scheduled rekey time + 30 s. distinct = run descriptors.')
+        '(responses built by the harness with the real keys): DELETE(IKE) within 2 ticks of scheduled rekey time + 30 s; (6) two IKE_SAs with the same peer (simultaneous initiation) rekey one after the other with their first transmissions lost. distinct = run descriptors.')
 ASSUMPTIONS = ['virtual time only; a tick is one loop iteration on each endpoint after advancing the clock',
                'the scheduled deadline is read from the IKE_SA between iterations; emission-time rules need only the wire']
 SHARDS = {'quick': 8, 'thorough': 16}
@@ -276,6 +276,55 @@ def run_tempfail(ck, mons, seed, dt, lifetime=20):
             ck.count('tempfail.deleted_in_time')
 
 
+
+def run_same_peer(ck, mons, seed, order, dt):
+    """Two IKE_SAs with the same peer (simultaneous initiation from both sides); both rekey, the first transmissions are lost.
+    The outstanding requests of different IKE_SAs must not influence one another (each retransmission byte-identical)."""
+    sc = walk.Scenario(seed, mons, dict(dpd=600, lifetime=3600), handshake=False)
+    sim = sc.sim
+    sim.tick_dt = dt
+    sim.case.update({'family': 'same-peer', 'order': order, 'tick': dt})
+    sim.acquire(sc.a, 0)
+    sim.acquire(sc.b, 0)
+    sim.drain()
+    ep = sc.a
+    est = [s for s in ep.ctl.ike_sas if s.state == State.ESTABLISHED]
+    if len(est) < 2:
+        ck.count('same_peer.setup_failed')
+        return
+    ck.count('same_peer.runs')
+    ck.nontrivial(('same-peer', order, dt))
+    seq = est if order % 2 == 0 else list(reversed(est))
+    for sa in seq:
+        if order < 2:
+            sa.rekey_ike_sa_at = sim.clock.t - 1
+            sa.delete_ike_sa_at = sim.clock.t + 40
+            ep.step('tick')
+        else:
+            # a new CHILD_SA on each of the IKE_SAs (the controller would pick the first one: drive the IKE_SA directly)
+            pc = list(ep.conf.ike_configurations.values())[0].protect[0]
+            import message as M
+            import ipaddress
+            tsi = M.TrafficSelector.from_network(ipaddress.ip_network(str(sa.my_addr)), 5000 + len(sim.wire), pc.my_ts.ip_proto)
+            tsr = M.TrafficSelector.from_network(ipaddress.ip_network(str(sa.peer_addr)), pc.peer_ts.get_port(), pc.peer_ts.ip_proto)
+            prev, S.W.cur = S.W.cur, ep
+            try:
+                data = sa.process_acquire(tsi, tsr, pc.index)
+            finally:
+                S.W.cur = prev
+            # put it on the wire through a timer iteration so that the monitors see the emission: emulate with the retransmission path
+            sim.case['actions'].append(('direct-acquire', bytes(sa.my_spi).hex()))
+            mons_tm = next(m for m in mons if isinstance(m, timers.TimerMonitor))
+            mons_tm.req[(id(sa), sa.my_msg_id)] = {'bytes': bytes(data), 'times': [sim.clock.t], 'deadlines': [sa.retransmit_at], 'answered': None, 'exch': 'CREATE_CHILD_SA', 'after_retry': False}
+            mons_tm.objs[id(sa)] = sa
+        sim.net.clear()                      # first transmission lost
+    for _ in range(int(9 / dt)):
+        sc.tick(dt)
+        sim.drain()
+    sim.tick_dt = None          # the final drain ticks with its own period
+    sc.settle()
+
+
 def run(ck):
     base = ck.seed * 1000003 + 53
     thorough = ck.thorough()
@@ -329,6 +378,12 @@ def run(ck):
         got = rekey_times(ck, sc, created, t0, lifetime, dt, dpd)
         ck.count('idle.runs')
         ck.nontrivial(('idle', dpd, lifetime, dt, got))
+    # (6) several IKE_SAs with the same peer
+    for order in (0, 1, 2, 3):
+        for dt in (0.5, 1.0):
+            n += 1
+            if ck.mine(n):
+                run_same_peer(ck, mk(), base + n, order, dt)
     # (5) TEMPORARY_FAILURE for ever
     for dt in (0.5, 1.0, 2.0) if not thorough else (0.25, 0.5, 1.0, 2.0, 3.0):
         n += 1
@@ -349,4 +404,5 @@ def verdict(ck):
     ck.floor('DPD probes started', c['tm.dpd_started'], 20)
     ck.floor('idle rekeys timed', c['idle.rekeys_timed'], 8)
     ck.floor('TEMPORARY_FAILURE runs that ended in a timely DELETE', c['tempfail.deleted_in_time'], 2)
+    ck.floor('runs with two IKE_SAs to the same peer', c['same_peer.runs'], 3)
     return {'gave_up_states': sorted(ck.sets['tm.gave_up_states']), 'cleanup_seconds_after_partition': sorted(ck.sets['partition.cleanup_seconds'])}
